@@ -1,4 +1,4 @@
-"""Engine RX: Python `re` parse tree -> z3 regular expressions / string constraints.
+r"""Engine RX: Python `re` parse tree -> z3 regular expressions / string constraints.
 
 Two services:
   * lang(items)            language of an sre item list, groups erased
